@@ -12,10 +12,12 @@ TITLE = 'Isotopic distributions are normalised, centred on the right masses and 
 RULE = ('random part: composition over C,H,N,O,S,P (+Se,Cl,Br,Fe) with integer or fractional counts, optional e/p/n and '
         'isotope-labelled keys (neutron view always compared with the binned mass view for those) x pruning/normalisation/resolution options; exhaustive part: every composition over '
         'C,H,N,O,S,P with at most 12 atoms compared with an exact multinomial expansion; non-trivial = >= 2 elements and '
-        '>= 10 atoms, or a particle entry, or a fractional count')
+        '>= 10 atoms, or a particle entry, or a fractional count; estimate part: neutral mass 30..1500 (4000 thorough) x the same options, '
+        'non-trivial = mass >= 200')
 ASSUMPTIONS = [
     'reference isotope masses and abundances: pv/refchem.py literals (cross-checked against chem.txt by C02)',
     'lightest-peak and mean clauses: mass view, no pruning option set, elements whose lightest isotope is the most abundant (C,H,N,O,S,P) for the lightest-peak clause',
+    'estimate part: averagine ratios C4.9384 H7.7583 N1.3577 O1.4773 S0.0417 (Senko 1995) scaled so that the MONOISOTOPIC mass equals neutral_mass (the library docstring and ISOTOPIC_AVERAGINE_MASS say so)',
     'tolerances: lightest peak (#elements+1)*10^-resolution; mean 1e-3 + 2e-5*atoms + (#elements+1)*10^-resolution + sum|count-round(count)|*|avg-mono| (the library prunes per-element terms below 1e-8, which biases the mean by up to ~5e-6 per atom); neutron view vs binned mass view 1e-5 absolute; exact expansion 1e-6 absolute on sum-normalised abundances',
 ]
 
@@ -220,6 +222,66 @@ def check_merge(case) -> Result:
     return r
 
 
+AVERAGINE = {'C': 4.9384, 'H': 7.7583, 'N': 1.3577, 'O': 1.4773, 'S': 0.0417}   # Senko et al. 1995, per averagine residue
+
+
+def check_estimate(case) -> Result:
+    """estimate_isotopic_distribution(m): the pattern of the averagine composition scaled to monoisotopic mass m"""
+    import warnings
+    import peptacular as pt
+    r = Result()
+    m, o = case['mass'], case['opts']
+    no_prune = o['max_isotopes'] is None and o['min_abundance'] is None
+    r.nontrivial = m >= 200
+    r.classes = (['no-pruning'] if no_prune else ['pruned']) + (['neutron-view'] if o['neutron'] else ['mass-view']) + [f'res={o["resolution"]}']
+    ctx = dict(neutral_mass=m, options=o)
+    kw = dict(max_isotopes=o['max_isotopes'], min_abundance_threshold=o['min_abundance'], distribution_resolution=o['resolution'],
+              use_neutron_count=o['neutron'], distribution_abundance=o['abundance'], is_abundance_sum=o['is_sum'],
+              output_masses_for_neutron_offset=o['out_masses'])
+    with warnings.catch_warnings():
+        warnings.simplefilter('ignore')
+        comp = pt.estimate_comp(m)
+        unit = sum(refchem.atom_mass(k, True) * v for k, v in AVERAGINE.items())
+        if set(comp) != set(AVERAGINE) or any(abs(comp[k] - AVERAGINE[k] * m / unit) > 1e-6 * max(1.0, comp[k]) for k in AVERAGINE):
+            r.fail('the estimated composition is averagine scaled to the given monoisotopic mass', 'C14/estimate/composition',
+                   got=comp, expected={k: AVERAGINE[k] * m / unit for k in AVERAGINE}, **ctx)
+            return r
+        dist = pt.estimate_isotopic_distribution(m, **kw)
+        same = pt.isotopic_distribution(dict(comp), **kw)
+    if dist != same:
+        r.fail('the estimated pattern is the pattern of the estimated composition under the same options',
+               'C14/estimate/differs-from-pattern-of-estimated-composition', got=dist[:5], expected=same[:5], **ctx)
+    if not dist:
+        r.fail('a pattern has at least one peak', 'C14/estimate/empty-pattern', **ctx)
+        return r
+    masses = [x for x, _a in dist]
+    if masses != sorted(masses):
+        r.fail('sorted by mass', 'C14/estimate/unsorted', masses=masses[:20], **ctx)
+    if not _norm_ok(dist, o['abundance'], o['is_sum']):
+        r.fail('largest peak (or total) equals the requested abundance', 'C14/estimate/normalisation/' + ('sum' if o['is_sum'] else 'max'), **ctx)
+    if o['max_isotopes'] is not None and len(dist) > o['max_isotopes']:
+        r.fail('at most max_isotopes peaks', 'C14/estimate/max-isotopes-exceeded', got=len(dist), **ctx)
+    res = o['resolution']
+    if no_prune and not o['neutron']:
+        if abs(dist[0][0] - m) > 6 * 10 ** (-res) + 1e-6:
+            r.fail('lightest peak sits at the monoisotopic mass', 'C14/estimate/lightest-peak', got=dist[0][0], expected=m, **ctx)
+        avg = refchem.comp_mass(comp, False)
+        tot = sum(a for _x, a in dist)
+        mean = sum(x * a for x, a in dist) / tot
+        slack = sum(abs(v - round(v)) * abs(refchem.atom_mass(k, False) - refchem.atom_mass(k, True)) for k, v in comp.items())
+        tol = 1e-3 + 2e-5 * sum(comp.values()) + 6 * 10 ** (-res) + slack
+        if abs(mean - avg) > tol:
+            r.fail('abundance-weighted mean equals the average mass', 'C14/estimate/mean', got=mean, expected=avg, tol=tol, **ctx)
+    return r
+
+
+def estimate_strategy(tier):
+    top = 1500.0 if tier == 'quick' else 4000.0
+    return st.fixed_dictionaries({'mass': st.one_of(st.floats(30.0, 600.0, allow_nan=False), st.floats(30.0, top, allow_nan=False),
+                                                     st.integers(30, int(top)).map(float)),
+                                  'opts': options()})
+
+
 # ---- strategies --------------------------------------------------------------------------------
 
 def options():
@@ -288,4 +350,5 @@ def parts(tier):
         Part(name='exact-small', kind='enum', check_case=check_exact, cases=exact_cases(), sharded=True, exhaustive=True,
              distinct_by_construction=True, shards=16, space='every composition over C,H,N,O,S,P with 1..12 atoms (18,563 compositions)'),
         Part(name='merge', kind='hyp', check_case=check_merge, strategy=merge_strategy, examples=n // 2),
+        Part(name='estimate', kind='hyp', check_case=check_estimate, strategy=lambda: estimate_strategy(tier), examples=n // 8),
     ]
